@@ -1,7 +1,9 @@
 package types
 
 import (
+	"encoding"
 	"encoding/base64"
+	"encoding/json"
 	"fmt"
 	"reflect"
 	"strconv"
@@ -135,6 +137,12 @@ func ConvertToJSONSupportedValue(t interface{}) JSONValue {
 		// the JSON encoding of a byte slice is a base64 string: that is what the other replicas get
 		return base64.StdEncoding.EncodeToString(v)
 	default:
+		if _, ok := t.(json.Marshaler); ok { // e.g. json.RawMessage: its JSON encoding is its own business
+			return t
+		}
+		if _, ok := t.(encoding.TextMarshaler); ok {
+			return t
+		}
 		if rv := reflect.ValueOf(t); rv.IsValid() && rv.Kind() == reflect.Slice && rv.Type().Elem().Kind() == reflect.Uint8 && !rv.IsNil() {
 			return base64.StdEncoding.EncodeToString(rv.Bytes()) // named byte slice types
 		}
